@@ -304,15 +304,16 @@ def audit_axioms(prop, modules, theorems):
 # pipeline
 
 
-def harness_run(prop, seed, n, tier, only=None, extra=None):
-    os.makedirs(os.path.join(WORK, prop), exist_ok=True)
-    cases = os.path.join(WORK, prop, "cases.jsonl")
+def harness_run(prop, seed, n, tier, only=None, extra=None, workname=None):
+    wd = os.path.join(WORK, workname or prop)
+    os.makedirs(wd, exist_ok=True)
+    cases = os.path.join(wd, "cases.jsonl")
     cmd = [HARNESS_BIN, prop, "--seed", str(seed), "--n", str(n), "--tier", tier]
     if only is not None:
         cmd += ["--only", str(only)]
     if extra:
         cmd += extra
-    errp = os.path.join(WORK, prop, "harness.stderr")
+    errp = os.path.join(wd, "harness.stderr")
     with open(cases, "w") as f, open(errp, "w") as ef:
         # the repository prints debug output (dbg!) on some paths: keep it out of the pipes
         p = subprocess.run(cmd, stdout=f, stderr=ef, text=True, env=ENV)
